@@ -20,6 +20,7 @@ func init() {
 			"(table) signalHandler.signals is only touched under signalsMutex (writes exclusively); removeSignalUser removes only an entry whose user id and connection match; addSignalUser refuses an id already present; " +
 			"(refcount) proxy.SubscribeID calls RegisterEvent only across State(key,+1)==1 and UnregisterEvent only across State(key,-1)==0 with the same key, and its cancel always cancels the local subscription; " +
 			"(order/closure) one forwarding goroutine per subscription with no `go` inside its loop, forwarding only Event payloads, closing the subscriber's channel exactly once per exit — in client.Subscribe and in every generated Subscribe*. " +
+			"The subscriber count is kept under a key built from service, object and signal id. " +
 			"Not decided: exactly-once/in-order delivery over all subscribe–emit–unsubscribe interleavings; 'no event after the removal was acknowledged'.",
 		Assumptions: []string{"channel FIFO semantics", "generated proxies are the checked-in *_gen.go / *_proxy.go files"},
 		Run:         runC13,
